@@ -195,6 +195,9 @@ def main():
     for h in hooks.values():
         h.close()
     C.models_used |= stdmodels.USED
+    # part B: every element / branch type reaches the join (the checker's join sites)
+    from checks import c15b
+    c15b.run_join_kernel(C, P)
     C.finish()
 
 
